@@ -335,6 +335,10 @@ def snapshot_file(path):
       cur = c.execute('SELECT * FROM "%s"' % n)
       cols = [d[0] for d in cur.description]
       out[n] = {'cols': cols, 'rows': sorted([list(r) for r in cur.fetchall()], key=repr)}
+  except sqlite3.OperationalError as e:
+    if 'locked' in str(e) or 'busy' in str(e):
+      return None      # somebody holds the file exclusively: its contents cannot be observed now
+    raise
   finally:
     c.close()
   return out
